@@ -107,6 +107,14 @@ def run(ctx):
             obj.method = method
             obj.order = order
             return obj
+        if 'step' not in sk and rng.random() < 0.3:
+            # another object with almost the same step ratio (literal 1.618034 next to (1 + sqrt 5) / 2, float32(1.3) next to 1.3, a ratio
+            # computed as 4.8 / 3) was evaluated just before: its rules are not this object's rules
+            r_near = float(sk.get('step_ratio', 2.0)) * (1 + rng.choice([3e-7, -2e-7, 4e-8]))
+            rep['earlier_object_step_ratio'] = r_near
+            with warnings.catch_warnings():
+                warnings.simplefilter('ignore')
+                nd.Jacobian(lambda t: A @ t + b, method=meth, order=order, step_ratio=r_near)(np.asarray(x, dtype=float))
         try:
             with warnings.catch_warnings():
                 warnings.simplefilter('ignore')
